@@ -285,3 +285,30 @@ func VerifC02_UnzipNonUTF8Names() {
 	verif.Observe("err", err != nil)
 	verif.Assert("handles_balanced", rec.opens == rec.closes)
 }
+
+// VerifC02_SiblingEscape: entries that leave the destination with '..' and
+// enter a sibling whose name is one or two arbitrary bytes -- in particular a
+// case variant or an extension of the destination's own name -- are refused
+// for every such name.
+func VerifC02_SiblingEscape() {
+	fs := NewVirtualFileSystem(afero.NewMemMapFs(), InMemoryFS, IdentityPathConverterFunc)
+	dest := []string{"/o/d", "/o/D", "/o/dE", "/O/d"}[verif.Choice("dest", 4)]
+	n := verif.Len("siblen", 1, 2)
+	sib := verif.String("sibling", n)
+	ups := verif.Len("ups", 1, 2)
+	name := ""
+	for i := 0; i < ups; i++ {
+		name += "../"
+	}
+	if ups == 2 {
+		name += []string{"o", "O"}[verif.Choice("parent", 2)] + "/"
+	}
+	name += sib + "/x"
+	got, err := sanitiseZipExtractPath(fs, name, dest)
+	if err == nil {
+		verif.Assert("accepted_entries_resolve_inside", vInside(dest, name))
+		verif.Assert("returned_path_is_the_resolved_location", got == vRender(vResolve(dest, name)))
+	} else {
+		verif.Reach("rejected")
+	}
+}
